@@ -36,6 +36,7 @@ CASE_TIMEOUT = 60
 SOURCES = ['parser.py', 'core/interfaces.py']
 OWN = ('ParserError', 'SymbolError', 'IndentationError')
 SIG19 = 'C03|exogenous-otherwise|variable-lost-to-function'
+SIG19_CONFLICT = 'C03|conflict-accepted|masked-by-function-call'
 
 OPT_VALUES = [None, 0, 1, 2, 3]
 
@@ -260,6 +261,10 @@ def oracle(case, o):
                 out.append(_f('rejection-class', cls, 'conflict rejected with %s instead of %s' % (cls, '/'.join(exp['reject']))))
         return out
     # ---- accepted
+    if exp is not None and 'reject' in exp and exp['fn_clash'] and 'SymbolError' in exp['reject']:
+        # finding #19 again: the conflicting mentions were overwritten by FUNCTION symbols of the same name
+        out.append({'sig': SIG19_CONFLICT, 'what': 'a name used in two classes is accepted because it is also called as a function (%s)' % exp['fn_clash'][0]})
+        return out
     if exp is not None and 'reject' in exp:
         out.append(_f('conflict-accepted', '+'.join(exp['reject']),
                       'a script with a name used in two classes / an endogenous variable with two different equations is accepted'))
@@ -437,6 +442,10 @@ CORPUS = [
     ('Y = exp + exp(X)', dict(A(['Y'], ['exp', 'X'], [], []), fn_clash=['exp'])),
     ('Y = exp(X) + exp', dict(A(['Y'], ['X', 'exp'], [], []), fn_clash=['exp'])),
     ('Y = X + f\nZ = f(X)', dict(A(['Y', 'Z'], ['X', 'f'], [], []), fn_clash=['f'])),
+    ('Y = {a} + a(X)', dict(A(['Y'], ['X'], ['a'], []), fn_clash=['a'])),
+    ('Y = a + a(1)\nZ = {a} + a(1)', dict(R('SymbolError'), fn_clash=['a'])),
+    ('Y = a + a(1)\nZ = <a> * a(2)', dict(R('SymbolError'), fn_clash=['a'])),
+    ('{p} = X', R('ParserError')), ('2 = X', R('ParserError')),
 ]
 LATTICE_SCRIPTS = ['Y = X', 'Y = X[-1] + Z[2]', 'Y = X[-3]\nZ = Y[1]', '']
 
@@ -491,7 +500,7 @@ def gen(rng, tier):
                         o = {'lags': lg, 'leads': ld, 'min_lags': ml, 'min_leads': md}
                         cases.append({'script': script, 'ast': None, 'expect': exp, 'opts': o, 'n': _ns(rng, _need(exp, o)), 'solve': False})
     # structured scripts
-    for _ in range(40000 if big else 4000):
+    for _ in range(100000 if big else 4000):
         safe = rng.random() < 0.35
         ast = bc.gen_ast(rng, safe=safe)
         if rng.random() < 0.15 and len(ast) >= 2:          # the same variable assigned twice
@@ -507,7 +516,7 @@ def gen(rng, tier):
         solve = safe and 'lags' not in o and 'leads' not in o and is_safe(ast)
         cases.append({'script': script, 'ast': ast, 'expect': None, 'opts': o, 'n': _ns(rng, _need(exp, o)), 'solve': bool(solve)})
     # malformed stream
-    for _ in range(10000 if big else 1500):
+    for _ in range(25000 if big else 1500):
         s = pc.gen_script(rng)
         if rng.random() < 0.6:
             s = pc.mutate(rng, s)
